@@ -255,8 +255,10 @@ inductive Outcome where
   | stdoutOnly (code : Int) (shown : Bool)
   /-- `Error: …` on stderr, process exit status -/
   | stderrExit (status : Nat)
-  /-- `std::terminate` (uncaught exception) -/
+  /-- the process dies: `std::terminate` (uncaught exception), or a stage aborts (SIGSEGV, SIGABRT, OOM kill) -/
   | crash
+  /-- the process does not terminate -/
+  | hang
 deriving Repr, DecidableEq
 
 /-! ## Command line -/
@@ -295,16 +297,31 @@ def exitStatus (c : Int) : Nat := (c % 256).toNat
 def wantsFile (ampl : Bool) (wantsol : Nat) : Bool := ampl || (wantsol &&& 1) != 0
 def suppressMsg (wantsol : Nat) : Bool := (wantsol &&& 8) != 0
 
+/-- Does `WriteSolFile` end with `file.close()` (which throws `fmt::SystemError` when a write failed)?
+True on the current tree (generated `Gen.C09.solWriterClosesFile`); before 87b3b50 it did not. -/
+def writerChecksClose : Bool := true
+
 /-- `AppSolutionHandlerImpl::HandleSolution` → `SolutionWriterImpl::HandleSolution` →
-`WriteSolFile`.  `none` = a `fmt::SystemError` leaves the function (the file cannot be opened, or
-the data cannot be written — then a truncated file may stay behind, but the run ends on stderr with a
-non-zero status). -/
-def handleSolution (ampl : Bool) (wantsol : Nat) (out : OutPath) (f : SolFile) : Option Outcome :=
+`WriteSolFile`, for a writer that does (`checks = true`) or does not check the stream when it closes the file.
+`none` = a `fmt::SystemError` leaves the function (the file cannot be opened, or the data cannot be written —
+then a truncated file may stay behind, but the run ends on stderr with a non-zero status).
+
+`complete` of the file left behind is **computed here**, it is not taken from the record that is passed in:
+every `file.print` may silently fail, and what reaches the file is complete iff the path can be flushed.  A
+writer that does not check (`checks = false`: the code before 87b3b50) returns normally and leaves a
+truncated file with exit status 0 — the model can say so (`C09_history_writeerr`). -/
+def handleSolutionW (checks : Bool) (ampl : Bool) (wantsol : Nat) (out : OutPath) (f : SolFile) : Option Outcome :=
   if wantsFile ampl wantsol then
-    if out.writable then
-      some (.sol f (!ampl && !suppressMsg wantsol))
+    if out.canOpen then
+      if out.canFlush || !checks then
+        some (.sol { f with complete := out.canFlush } (!ampl && !suppressMsg wantsol))
+      else none
     else none
   else some (.stdoutOnly f.code (!suppressMsg wantsol))
+
+/-- the writer of the current tree -/
+def handleSolution (ampl : Bool) (wantsol : Nat) (out : OutPath) (f : SolFile) : Option Outcome :=
+  handleSolutionW writerChecksClose ampl wantsol out f
 
 /-- a `fmt::SystemError` leaving `HandleSolution` ends in `RunBackendApp`'s
 `catch (std::exception)`: `Error: …` on stderr, `EXIT_FAILURE` -/
@@ -486,6 +503,8 @@ def GoodEnd (sc : Scenario) (e : Ending) (o : Outcome) : Prop :=
       (f.nduals = 0 ∨ f.nduals = f.ncons) ∧ (f.nprimals = 0 ∨ f.nprimals = f.nvars) ∧
       codeOK sc.answer k f.code
   | some _, .stderrExit st => cannotWrite sc e = true ∧ st ≠ 0
+  -- no `.sol` was requested (no `-AMPL`, `wantsol&1 = 0`) and nothing went wrong: the solver's result on stdout
+  | some .none, .stdoutOnly c shown => shown = true ∧ c = sc.answer.code
   | _, _ => False
 
 instance (sc : Scenario) (e : Ending) (o : Outcome) : Decidable (GoodEnd sc e o) := by
@@ -506,5 +525,6 @@ def Outcome.toStr : Outcome → String
   | .stdoutOnly c s => s!"stdout code={c} shown={if s then 1 else 0} exit=0"
   | .stderrExit st => s!"stderr exit={st}"
   | .crash => "crash"
+  | .hang => "hang"
 
 end MpVerif.C09
